@@ -114,6 +114,7 @@ structure Agent where
   peers : List (Nat × Nat) := []   -- connected peer → next stream id its allocator hands out
   cleanAll : Bool := true          -- `cleanupRelaysForPeer` also cleans the UDP and ICMP tables (repaired code)
   udpExit : List Nat := []         -- exit-side UDP associations of this agent (udp.Handler.associations, bare stream id)
+  uidx : List Nat := []            -- ingress side: udpIngressByLocalStream keys (local stream id of each client's destination association)
   deriving Repr
 
 def Agent.table (a : Agent) : Kind → Table
@@ -174,15 +175,29 @@ def Agent.relayClose (a : Agent) (k : Kind) (what : String) (peer id : Nat) : Op
 def Agent.udpExitOpen (a : Agent) (peer id : Nat) : Agent × List Sent :=
   ({ a with udpExit := id :: a.udpExit.filter (· != id) }, [⟨peer, "ack", id, ""⟩])
 
+/-- A new SOCKS5 UDP client at this agent (ingress): its destination association gets the next stream
+    id of the connection to the exit-side peer and is entered in the reverse index under THAT id. -/
+def Agent.udpIngressOpen (a : Agent) (next : Nat) : Agent × List Sent :=
+  let (a1, id) := a.alloc next
+  ({ a1 with uidx := id :: a1.uidx.filter (· != id) }, [⟨next, "open", id, ""⟩])
+
+/-- `handleUDPOpenErr` for an ingress client: the reverse-index entry of exactly that local stream id
+    is removed (after the relay table had its turn). -/
+def Agent.udpIngressErr (a : Agent) (peer id : Nat) : Agent × List Sent :=
+  match a.relayErr .udp peer id with
+  | some (a', l) => (a', l)
+  | none => ({ a with uidx := a.uidx.filter (· != id) }, [])
+
 /-- `handleUDPDatagram`: a stream id that names an exit-side association is consumed by the UDP
-    handler (no peer check); only otherwise the relay table is consulted. -/
+    handler (no peer check), then one that names an ingress association by the ingress side; only
+    otherwise the relay table is consulted. -/
 def Agent.udpData (a : Agent) (peer id : Nat) (payload : String := "") : Option (Agent × List Sent) :=
-  if a.udpExit.contains id then some (a, []) else a.relayData .udp peer id payload
+  if a.udpExit.contains id || a.uidx.contains id then some (a, []) else a.relayData .udp peer id payload
 
 /-- `handleUDPClose`: the exit-side association under that id (if any) is removed AND the relay
     table is asked (`PopMatchingPeer`) — both, always. -/
 def Agent.udpClose (a : Agent) (peer id : Nat) : Agent × List Sent :=
-  let a1 := { a with udpExit := a.udpExit.filter (· != id) }
+  let a1 := { a with udpExit := a.udpExit.filter (· != id), uidx := a.uidx.filter (· != id) }
   match a1.relayClose .udp "close" peer id with
   | some (a2, l) => (a2, l)
   | none => (a1, [])
